@@ -16,7 +16,7 @@ func init() {
 		ID:          "C15",
 		Explanation: "Decided: (keyfor) in $newType every comparable kind installs a keyFor and exactly func/map/slice are marked non-comparable, arrays and structs inherit comparability from their parts; (inject) composite keys escape the escape character and then the separator of every sub-key before joining with that separator, 64-bit/complex keys join numbers, interface keys are discriminated by type identity (no display string reaches a key function); (ops) map literal, index, store and delete compute T.keyFor with the map's key type, entries are {k, v} on both sides, nil-map read/len/range/write arms exist. (contexts, shared with C07) keys and values are copied into the map on store and in map literals — a stored array or struct key that aliases the caller's variable changes under the map. NOT decided: behaviour over operation histories, range-with-deletion, float key formatting.",
 		Assumptions: []string{"String(number) never contains '$' or '\\\\'", "JavaScript Map preserves insertion order and compares string keys by value"},
-		Rules:       []RuleFunc{ruleC15Keyfor, ruleC15Inject, ruleC15Ops, ruleC09ID, ruleC07Contexts, ruleC15KeyConverted, ruleStructComparable, ruleBlankFields, ruleC15NaNKeys, ruleC15IdKey},
+		Rules:       []RuleFunc{ruleC15Keyfor, ruleC15Inject, ruleC15Ops, ruleC09ID, ruleC07Contexts, ruleC15KeyConverted, ruleStructComparable, ruleBlankFields, ruleC15NaNKeys, ruleC15IdKey, ruleC15UnhashablePanics},
 	})
 }
 
